@@ -16,6 +16,7 @@ import (
 	"fmt"
 	"io"
 	"net"
+	"net/http"
 	"net/url"
 	"os"
 	"sort"
@@ -24,6 +25,7 @@ import (
 	"time"
 
 	"github.com/notaryproject/notation-core-go/revocation"
+	revcrl "github.com/notaryproject/notation-core-go/revocation/crl"
 	revocsp "github.com/notaryproject/notation-core-go/revocation/ocsp"
 	revresult "github.com/notaryproject/notation-core-go/revocation/result"
 	"github.com/notaryproject/notation-core-go/signature"
@@ -35,6 +37,7 @@ import (
 	pluginfw "github.com/notaryproject/notation-plugin-framework-go/plugin"
 	"github.com/opencontainers/go-digest"
 	ocispec "github.com/opencontainers/image-spec/specs-go/v1"
+	xocsp "golang.org/x/crypto/ocsp"
 )
 
 type Input struct {
@@ -54,12 +57,17 @@ type Input struct {
 	// what error the validator returns (see validatorErr; ignored by the model: every error fails the validation)
 	ErrorKind string `json:"errorKind"`
 	// the context handed to Verify: "background", "live" (deadline far away), "cancelled", "expired" (ignored by the model)
-	CallerCtx        string   `json:"callerCtx"`
-	Methods          []string `json:"methods"`
-	ServerErrors     []bool   `json:"serverErrors"`
-	ErrorWithResults bool     `json:"errorWithResults"`
-	DeprecatedCtor   bool     `json:"deprecatedCtor"`
-	IdentityPlugin   bool     `json:"identityPlugin"`
+	CallerCtx string   `json:"callerCtx"`
+	Methods   []string `json:"methods"`
+	// per certificate, its per-server results as "<server's result>/<kind of typed error>" (see serverErr; ignored
+	// by the model: the aggregation depends on the per-certificate result only)
+	Servers [][]string `json:"servers"`
+	// "scripted": the instrumented validator answers Vec; "stock": the notation-core-go validator behind a
+	// scripted HTTP transport produced Vec, recorded in passing (needs Variant "ocspChain"; ignored by the model)
+	ValidatorImpl    string `json:"validatorImpl"`
+	ErrorWithResults bool   `json:"errorWithResults"`
+	DeprecatedCtor   bool   `json:"deprecatedCtor"`
+	IdentityPlugin   bool   `json:"identityPlugin"`
 	// what else is true of the signature (ignored by the model, theorem variant_irrelevant): none of it
 	// may change how revocation is checked or aggregated
 	//   ""                  nothing special
@@ -95,6 +103,10 @@ type world struct {
 	// configuration (a fresh one for every seventh case as control)
 	verifiers map[string]*liveVerifier
 	uses      int
+	// stock validator mode: how the OCSP responder of certificate k behaves in the current case, and what
+	// the stock validator reported
+	behave      []string
+	lastResults []*revresult.CertRevocationResult
 }
 
 type liveVerifier struct {
@@ -108,7 +120,7 @@ type liveVerifier struct {
 // which has none)
 type scripted struct {
 	mu      sync.Mutex
-	Results func(ctx context.Context, chain []*x509.Certificate) ([]*revresult.CertRevocationResult, error)
+	Results func(ctx context.Context, chain []*x509.Certificate, signingTime time.Time) ([]*revresult.CertRevocationResult, error)
 	Calls   []common.RevCall
 }
 
@@ -117,7 +129,7 @@ func (r *scripted) ValidateContext(ctx context.Context, opts revocation.Validate
 	r.Calls = append(r.Calls, common.RevCall{ChainLen: len(opts.CertChain), Chain: opts.CertChain,
 		HasSigningTime: !opts.AuthenticSigningTime.IsZero(), SigningTime: opts.AuthenticSigningTime, Interface: "validator"})
 	r.mu.Unlock()
-	return r.Results(ctx, opts.CertChain)
+	return r.Results(ctx, opts.CertChain, opts.AuthenticSigningTime)
 }
 
 type clientView struct{ r *scripted }
@@ -127,7 +139,7 @@ func (c clientView) Validate(certChain []*x509.Certificate, signingTime time.Tim
 	c.r.Calls = append(c.r.Calls, common.RevCall{ChainLen: len(certChain), Chain: certChain,
 		HasSigningTime: !signingTime.IsZero(), SigningTime: signingTime, Interface: "client"})
 	c.r.mu.Unlock()
-	return c.r.Results(nil, certChain)
+	return c.r.Results(nil, certChain, signingTime)
 }
 
 /* ---- the kinds of validator-level errors ---- */
@@ -238,6 +250,123 @@ func validatorErr(kind string, ctx context.Context) error {
 	}
 	panic("c05: unknown error kind " + kind)
 }
+
+/* ---- per-server results ---- */
+
+// ServerErrKinds lists the kinds of typed errors a per-server result may carry.
+var ServerErrKinds = []string{"none", "plain", "ocspTimeout", "ocspTimeoutWrapped", "ocspGeneric", "ocspUnknownStatus", "ocspRevoked",
+	"ocspNoServer", "invalidChain", "crlCacheMiss", "crlDownloadTimeout", "ctxDeadline"}
+
+func serverErr(kind string) error {
+	switch kind {
+	case "none":
+		return nil
+	case "plain":
+		return errors.New("server error")
+	case "ocspTimeout":
+		return revocsp.TimeoutError{}
+	case "ocspTimeoutWrapped":
+		return fmt.Errorf("responder: %w", revocsp.TimeoutError{})
+	case "ocspGeneric":
+		return revocsp.GenericError{Err: errors.New("failed to retrieve OCSP: response had status code 503")}
+	case "ocspUnknownStatus":
+		return revocsp.UnknownStatusError{}
+	case "ocspRevoked":
+		return revocsp.RevokedError{}
+	case "ocspNoServer":
+		return revocsp.NoServerError{}
+	case "invalidChain":
+		return revresult.InvalidChainError{Err: errors.New("chain out of order")}
+	case "crlCacheMiss":
+		return fmt.Errorf("failed to get CRL: %w", revcrl.ErrCacheMiss)
+	case "crlDownloadTimeout":
+		return fmt.Errorf("failed to download CRL from %s: %w", "http://crl.example/ca.crl", &url.Error{Op: "Get", URL: "http://crl.example/ca.crl", Err: clientTimeoutErr{}})
+	case "ctxDeadline":
+		return context.DeadlineExceeded
+	}
+	panic("c05: unknown server error kind " + kind)
+}
+
+// serverErrKindOf names the error of a server result the stock validator produced
+func serverErrKindOf(err error) string {
+	var to revocsp.TimeoutError
+	var ge revocsp.GenericError
+	var us revocsp.UnknownStatusError
+	var re revocsp.RevokedError
+	var ns revocsp.NoServerError
+	switch {
+	case err == nil:
+		return "none"
+	case errors.As(err, &to):
+		return "ocspTimeout"
+	case errors.As(err, &ge):
+		return "ocspGeneric"
+	case errors.As(err, &us):
+		return "ocspUnknownStatus"
+	case errors.As(err, &re):
+		return "ocspRevoked"
+	case errors.As(err, &ns):
+		return "ocspNoServer"
+	}
+	return "plain"
+}
+
+// Behaviours lists how the OCSP responder of one certificate can behave behind the stock validator.
+var Behaviours = []string{"good", "revoked", "unknown", "timeout", "refused", "http503", "garbage", "tryLater"}
+
+// ocspTransport answers the stock validator's OCSP requests: host ocsp-<k>.c05.example is the responder of certificate k
+type ocspTransport struct {
+	w     *world
+	chain *common.Chain
+}
+
+func (t *ocspTransport) RoundTrip(req *http.Request) (*http.Response, error) {
+	var k int
+	if _, err := fmt.Sscanf(req.URL.Host, "ocsp-%d.c05.example", &k); err != nil || k < 0 || k+1 >= len(t.chain.Certs) || k >= len(t.w.behave) {
+		return nil, fmt.Errorf("c05: unexpected request to %s", req.URL)
+	}
+	if req.Body != nil {
+		io.Copy(io.Discard, req.Body)
+		req.Body.Close()
+	}
+	reply := func(code int, body []byte) (*http.Response, error) {
+		return &http.Response{StatusCode: code, Status: http.StatusText(code), Proto: "HTTP/1.1", ProtoMajor: 1, ProtoMinor: 1,
+			Header: http.Header{"Content-Type": []string{"application/ocsp-response"}}, Body: io.NopCloser(strings.NewReader(string(body))),
+			ContentLength: int64(len(body)), Request: req}, nil
+	}
+	status := xocsp.Good
+	switch t.w.behave[k] {
+	case "timeout":
+		return nil, clientTimeoutErr{} // the responder does not answer within the client's timeout
+	case "refused":
+		return nil, errors.New("dial tcp: connection refused")
+	case "http503":
+		return reply(503, nil)
+	case "garbage":
+		return reply(200, []byte("not an OCSP response"))
+	case "tryLater":
+		return reply(200, xocsp.TryLaterErrorResponse)
+	case "revoked":
+		status = xocsp.Revoked
+	case "unknown":
+		status = xocsp.Unknown
+	}
+	cert, issuer := t.chain.Certs[k], t.chain.Certs[k+1]
+	tmpl := xocsp.Response{Status: status, SerialNumber: cert.Cert.SerialNumber, ThisUpdate: time.Now().Add(-time.Hour), NextUpdate: time.Now().Add(time.Hour)}
+	if status == xocsp.Revoked {
+		tmpl.RevokedAt, tmpl.RevocationReason = time.Now().Add(-24*time.Hour), xocsp.KeyCompromise
+	}
+	der, err := xocsp.CreateResponse(issuer.Cert, issuer.Cert, tmpl, issuer.Key)
+	if err != nil {
+		panic(fmt.Sprintf("c05: OCSP response: %v", err))
+	}
+	return reply(200, der)
+}
+
+var resName = map[revresult.Result]string{revresult.ResultOK: "ok", revresult.ResultNonRevokable: "nonRevokable",
+	revresult.ResultUnknown: "unknown", revresult.ResultRevoked: "revoked"}
+var methodName = map[revresult.RevocationMethod]string{revresult.RevocationMethodOCSP: "ocsp", revresult.RevocationMethodCRL: "crl",
+	revresult.RevocationMethodOCSPFallbackCRL: "fallback", revresult.RevocationMethodUnknown: "unknown"}
 
 /* ---- the trust policy statement ---- */
 
@@ -354,12 +483,34 @@ const identityPluginName = "identity-only-plugin"
 // chain returns the chain of a case: the standing one, or a variant minted on first use
 func (w *world) chain(n int, variant string) *common.Chain {
 	switch variant {
-	case "expiredChain", "emptySubjectLeaf":
+	case "expiredChain", "emptySubjectLeaf", "ocspChain":
 	default:
 		return w.chains[n]
 	}
 	k := fmt.Sprint(variant, n)
 	if c, ok := w.vchains[k]; ok {
+		return c
+	}
+	if variant == "ocspChain" {
+		// every certificate below the root names an OCSP responder of its own (and no CRL)
+		nb := time.Now().Add(-48 * time.Hour)
+		tag := fmt.Sprintf("c05-ocsp-%d", n)
+		root := common.MakeCert(common.CertOpts{Subject: common.Name("root " + tag), CA: true, PathLen: n - 2, NotBefore: nb})
+		certs := []*common.Cert{root}
+		issuer := root
+		for j := 0; j < n-2; j++ {
+			inter := common.MakeCert(common.CertOpts{Subject: common.Name(fmt.Sprintf("intermediate%d %s", j+1, tag)), CA: true, PathLen: n - 3 - j,
+				Parent: issuer, NotBefore: nb, OCSPURLs: []string{fmt.Sprintf("http://ocsp-%d.c05.example", n-2-j)}})
+			certs = append([]*common.Cert{inter}, certs...)
+			issuer = inter
+		}
+		leaf := common.MakeCert(common.CertOpts{Subject: common.Name("leaf " + tag), Parent: issuer, NotBefore: nb,
+			EKU: []x509.ExtKeyUsage{x509.ExtKeyUsageCodeSigning}, OCSPURLs: []string{"http://ocsp-0.c05.example"}})
+		c := &common.Chain{Certs: append([]*common.Cert{leaf}, certs...)}
+		if len(c.Certs) != n || n < 2 {
+			panic("c05: ocsp chain length")
+		}
+		w.vchains[k] = c
 		return c
 	}
 	o := common.ChainOpts{Tag: fmt.Sprintf("c05-%s-%d", variant, n)}
@@ -422,7 +573,7 @@ func runCase(w *world, in Input, format string) Obs {
 		scheme, storeType = common.SchemeAuthority, "signingAuthority"
 	}
 	env := w.env(n, scheme, format, in.IdentityPlugin, in.Variant)
-	results := func(vctx context.Context, c []*x509.Certificate) ([]*revresult.CertRevocationResult, error) {
+	results := func(vctx context.Context, c []*x509.Certificate, _ time.Time) ([]*revresult.CertRevocationResult, error) {
 		if in.ValidatorError && !in.ErrorWithResults {
 			return nil, validatorErr(in.ErrorKind, vctx)
 		}
@@ -430,14 +581,25 @@ func runCase(w *world, in Input, format string) Obs {
 		for k := 0; k < len(in.Vec); k++ {
 			m := methodMap[in.Methods[k]]
 			cr := &revresult.CertRevocationResult{Result: resMap[in.Vec[k]], RevocationMethod: m}
-			sr := &revresult.ServerResult{Result: resMap[in.Vec[k]], Server: "http://example/" + fmt.Sprint(k), RevocationMethod: m}
-			if in.ServerErrors[k] {
-				sr.Error = errors.New("server error")
-				if m == revresult.RevocationMethodOCSPFallbackCRL {
-					sr.RevocationMethod = revresult.RevocationMethodOCSP
+			cr.ServerResults = []*revresult.ServerResult{}
+			for j, d := range in.Servers[k] {
+				res, kind, ok := strings.Cut(d, "/")
+				if _, known := resMap[res]; !ok || !known {
+					panic("c05: bad server result " + d)
 				}
+				sr := &revresult.ServerResult{Result: resMap[res], Server: fmt.Sprintf("http://example/%d/%d", k, j), RevocationMethod: m,
+					Error: serverErr(kind)}
+				if m == revresult.RevocationMethodOCSPFallbackCRL {
+					sr.RevocationMethod = revresult.RevocationMethodCRL
+					if strings.HasPrefix(kind, "ocsp") {
+						sr.RevocationMethod = revresult.RevocationMethodOCSP
+					}
+				}
+				cr.ServerResults = append(cr.ServerResults, sr)
 			}
-			cr.ServerResults = []*revresult.ServerResult{sr}
+			if len(in.Servers[k]) == 0 && w.uses%2 == 0 {
+				cr.ServerResults = nil
+			}
 			out[k] = cr
 		}
 		if in.ValidatorError {
@@ -445,11 +607,39 @@ func runCase(w *world, in Input, format string) Obs {
 		}
 		return out, nil
 	}
+	if in.ValidatorImpl == "stock" {
+		if in.Variant != "ocspChain" {
+			panic("c05: the stock validator needs the chain that names OCSP responders")
+		}
+		// the notation-core-go validator (context-aware, or the deprecated client) behind the scripted transport
+		client := &http.Client{Transport: &ocspTransport{w: w, chain: chain}, Timeout: 5 * time.Second}
+		w.lastResults = nil
+		results = func(vctx context.Context, c []*x509.Certificate, st time.Time) ([]*revresult.CertRevocationResult, error) {
+			var out []*revresult.CertRevocationResult
+			var err error
+			if vctx != nil {
+				var val revocation.Validator
+				if val, err = revocation.NewWithOptions(revocation.Options{OCSPHTTPClient: client}); err == nil {
+					out, err = val.ValidateContext(vctx, revocation.ValidateContextOptions{CertChain: c, AuthenticSigningTime: st})
+				}
+			} else {
+				var old revocation.Revocation
+				if old, err = revocation.New(client); err == nil {
+					out, err = old.Validate(c, st)
+				}
+			}
+			if err != nil {
+				panic(fmt.Sprintf("c05: stock validator: %v", err))
+			}
+			w.lastResults = out
+			return out, nil
+		}
+	}
 	rovKey := "-"
 	if in.RevOverride != nil {
 		rovKey = *in.RevOverride
 	}
-	key := fmt.Sprint(n, in.Scheme, in.Iface, in.Level, rovKey, in.OtherOverrides, in.PolicyForm, in.IdentityPlugin, in.DeprecatedCtor, in.Variant, in.BothSupplied)
+	key := fmt.Sprint(in.ValidatorImpl, n, in.Scheme, in.Iface, in.Level, rovKey, in.OtherOverrides, in.PolicyForm, in.IdentityPlugin, in.DeprecatedCtor, in.Variant, in.BothSupplied)
 	w.uses++
 	lv := w.verifiers[key]
 	if lv == nil || w.uses%7 == 0 {
@@ -500,7 +690,7 @@ func runCase(w *world, in Input, format string) Obs {
 		w.verifiers[key] = lv
 		if w.uses%2 == 0 {
 			// history: the new verifier has already seen this very chain with a clean bill of health
-			rev.Results = func(_ context.Context, c []*x509.Certificate) ([]*revresult.CertRevocationResult, error) {
+			rev.Results = func(_ context.Context, c []*x509.Certificate, _ time.Time) ([]*revresult.CertRevocationResult, error) {
 				return common.UniformResults(revresult.ResultOK)(c)
 			}
 			v.Verify(context.Background(), target, env, notation.VerifierVerifyOptions{
@@ -637,6 +827,42 @@ func pickForm(c *common.Ctx) string {
 	return "code"
 }
 
+// consistent is what a server that worked reports next to the certificate's result
+func consistent(res string) string {
+	switch res {
+	case "revoked":
+		return "revoked/ocspRevoked"
+	case "unknown":
+		return "unknown/ocspUnknownStatus"
+	}
+	return res + "/none"
+}
+
+// genServers draws per-server results for every certificate of a vector: none, one consistent with the
+// certificate's result, several carrying the same typed error, or a mix (a server that succeeded among errored ones)
+func genServers(c *common.Ctx, vec []string) [][]string {
+	out := make([][]string, len(vec))
+	results := []string{"ok", "nonRevokable", "unknown", "revoked"}
+	for k, res := range vec {
+		out[k] = []string{}
+		switch c.Rand.Intn(6) {
+		case 0: // no server results
+		case 1, 2:
+			out[k] = append(out[k], consistent(res))
+		case 3: // every server fails the same way
+			kind := ServerErrKinds[1+c.Rand.Intn(len(ServerErrKinds)-1)]
+			for j := 1 + c.Rand.Intn(3); j > 0; j-- {
+				out[k] = append(out[k], "unknown/"+kind)
+			}
+		default: // a mix
+			for j := 1 + c.Rand.Intn(3); j > 0; j-- {
+				out[k] = append(out[k], results[c.Rand.Intn(4)]+"/"+ServerErrKinds[c.Rand.Intn(len(ServerErrKinds))])
+			}
+		}
+	}
+	return out
+}
+
 // Run enumerates every vector for n = 1..4 x scheme x interface x statement about revocation (x validator
 // error on a sample), with random method annotations, server errors, error kinds, caller contexts and
 // overrides of other types.
@@ -701,8 +927,8 @@ func Run(c *common.Ctx) error {
 								in.BothSupplied = iface == "validator" && c.Rand.Intn(3) == 0
 								for k := 0; k < n; k++ {
 									in.Methods = append(in.Methods, methods[c.Rand.Intn(len(methods))])
-									in.ServerErrors = append(in.ServerErrors, c.Rand.Intn(4) == 0)
 								}
+								in.Servers, in.ValidatorImpl = genServers(c, vec), "scripted"
 								format := common.MediaJWS
 								if c.Rand.Intn(3) == 0 {
 									format = common.MediaCOSE
@@ -737,12 +963,91 @@ func Run(c *common.Ctx) error {
 							}
 							in.Vec = append(in.Vec, r)
 							in.Methods = append(in.Methods, methods[c.Rand.Intn(len(methods))])
-							in.ServerErrors = append(in.ServerErrors, false)
 						}
+						in.Servers, in.ValidatorImpl = genServers(c, in.Vec), "scripted"
 						emit(in, common.MediaJWS)
 						c.Count("error-kind-block")
 					}
 				}
+			}
+		}
+	}
+	// per-server results behind the per-certificate ones: every vector with an Unknown certificate (chains up to
+	// three, a sample of four) x every kind of typed server error x {one server, two servers, errored servers plus
+	// one that answered OK} on the Unknown certificates (all other certificates annotated consistently)
+	for n := 1; n <= 4; n++ {
+		for _, vec := range vectors(n) {
+			if !strings.Contains(strings.Join(vec, ","), "unknown") || (n == 4 && c.Rand.Intn(4) != 0) {
+				continue
+			}
+			for _, kind := range ServerErrKinds[1:] {
+				for shape := 0; shape < 3; shape++ {
+					action := []string{"enforce", "enforce", "log"}[c.Rand.Intn(3)]
+					st := byAction[action][c.Rand.Intn(len(byAction[action]))]
+					in := Input{Vec: vec, ChainLen: n, Scheme: []string{"x509", "signingAuthority"}[c.Rand.Intn(2)],
+						Iface: []string{"validator", "client"}[c.Rand.Intn(2)], Level: st.level, RevOverride: st.rev,
+						OtherOverrides: []string{}, PolicyForm: "code", CallerCtx: "background", ValidatorImpl: "scripted"}
+					for _, res := range vec {
+						in.Methods = append(in.Methods, []string{"ocsp", "fallback", "crl"}[c.Rand.Intn(3)])
+						sv := []string{consistent(res)}
+						if res == "unknown" {
+							sv = []string{"unknown/" + kind}
+							switch shape {
+							case 1:
+								sv = append(sv, "unknown/"+kind)
+							case 2:
+								sv = append(sv, "unknown/"+kind, "ok/none")
+							}
+						}
+						in.Servers = append(in.Servers, sv)
+					}
+					emit(in, common.MediaJWS)
+					c.Count("server-results-block")
+				}
+			}
+		}
+	}
+	// the stock notation-core-go validator (both interfaces) behind an HTTP transport: the OCSP responder of every
+	// certificate below the root answers good / revoked / unknown, garbage, an HTTP error, refuses, or times out;
+	// what the validator reports is recorded as the case's vector
+	for _, n := range []int{2, 3, 4} {
+		var combos [][]string
+		var build func(prefix []string)
+		build = func(prefix []string) {
+			if len(prefix) == n-1 {
+				combos = append(combos, append([]string{}, prefix...))
+				return
+			}
+			for _, b := range Behaviours {
+				build(append(prefix, b))
+			}
+		}
+		build(nil)
+		for _, behave := range combos {
+			if n == 4 && c.Rand.Intn(8) != 0 && !c.Thorough() {
+				continue
+			}
+			for _, iface := range []string{"validator", "client"} {
+				action := []string{"enforce", "enforce", "log"}[c.Rand.Intn(3)]
+				st := byAction[action][c.Rand.Intn(len(byAction[action]))]
+				in := Input{ChainLen: n, Scheme: []string{"x509", "signingAuthority"}[c.Rand.Intn(2)], Iface: iface, Level: st.level, RevOverride: st.rev,
+					OtherOverrides: []string{}, PolicyForm: "code", CallerCtx: []string{"background", "live"}[c.Rand.Intn(2)],
+					Variant: "ocspChain", ValidatorImpl: "stock", Vec: []string{}, Methods: []string{}, Servers: [][]string{}}
+				w.behave = behave
+				o := runCase(w, in, common.MediaJWS)
+				for _, r := range w.lastResults {
+					in.Vec = append(in.Vec, resName[r.Result])
+					in.Methods = append(in.Methods, methodName[r.RevocationMethod])
+					sv := []string{}
+					for _, sr := range r.ServerResults {
+						sv = append(sv, resName[sr.Result]+"/"+serverErrKindOf(sr.Error))
+					}
+					in.Servers = append(in.Servers, sv)
+				}
+				c.Emit(in, o)
+				c.Count("outcome=" + o.Outcome)
+				c.Count("stock-validator")
+				c.Count("stock-validator/vec=" + strings.Join(in.Vec, ","))
 			}
 		}
 	}
@@ -785,8 +1090,8 @@ func Run(c *common.Ctx) error {
 							}
 							for k := 0; k < n; k++ {
 								in.Methods = append(in.Methods, methods[c.Rand.Intn(len(methods))])
-								in.ServerErrors = append(in.ServerErrors, c.Rand.Intn(4) == 0)
 							}
+							in.Servers, in.ValidatorImpl = genServers(c, vec), "scripted"
 							emit(in, common.MediaJWS)
 							c.Count("variant=" + variant)
 						}
@@ -813,11 +1118,11 @@ func Run(c *common.Ctx) error {
 						if in.Vec == nil {
 							in.Vec = []string{}
 						}
-						in.Methods, in.ServerErrors = []string{}, []bool{}
+						in.Methods = []string{}
 						for k := 0; k < m; k++ {
 							in.Methods = append(in.Methods, "ocsp")
-							in.ServerErrors = append(in.ServerErrors, false)
 						}
+						in.Servers, in.ValidatorImpl = genServers(c, in.Vec), "scripted"
 						emit(in, common.MediaJWS)
 						c.Count("result-count-mismatch")
 					}
@@ -826,6 +1131,6 @@ func Run(c *common.Ctx) error {
 		}
 	}
 	c.SetExhaustive(true)
-	c.Note("all 340 result vectors over chains of length 1..4 x {x509, signingAuthority} x {validator, deprecated client} x the statements about revocation a user can write (strict / permissive / audit x {no override, enforce, log, skip}, and the level skip: all 13 for chains up to three, one per denoted action for chains of four), next to random overrides of other types, policy built in code or parsed from JSON text; validator-level error on a quarter, and a block of every error kind (%d: plain, empty message, typed nil pointer, context.Canceled / DeadlineExceeded bare, wrapped, joined, from the validator's own timeout / cancellation, url.Error, net timeouts, os.ErrDeadlineExceeded, typed OCSP / chain errors) x caller context {background, live deadline, cancelled, expired} x both interfaces x logging and enforcing statements; random method annotations and per-server errors; half of the fresh verifiers primed with an all-OK answer for the same chain; real JWS/COSE envelopes through verifier.Verify", len(ErrorKinds))
+	c.Note("all 340 result vectors over chains of length 1..4 x {x509, signingAuthority} x {validator, deprecated client} x the statements about revocation a user can write (strict / permissive / audit x {no override, enforce, log, skip}, and the level skip: all 13 for chains up to three, one per denoted action for chains of four), next to random overrides of other types, policy built in code or parsed from JSON text; validator-level error on a quarter, and a block of every error kind (%d: plain, empty message, typed nil pointer, context.Canceled / DeadlineExceeded bare, wrapped, joined, from the validator's own timeout / cancellation, url.Error, net timeouts, os.ErrDeadlineExceeded, typed OCSP / chain errors) x caller context {background, live deadline, cancelled, expired} x both interfaces x logging and enforcing statements; random method annotations; per-server results behind every per-certificate result (none, one, several; typed OCSP / CRL / chain errors, all servers timed out, a server that answered among errored ones) at random everywhere and in a block of every vector with an Unknown certificate x every error kind x three shapes; the stock notation-core-go validator (both interfaces) behind an HTTP transport whose per-certificate OCSP responders answer good / revoked / unknown / garbage / 503 / refuse / time out, its report recorded as the vector; half of the fresh verifiers primed with an all-OK answer for the same chain; real JWS/COSE envelopes through verifier.Verify", len(ErrorKinds))
 	return nil
 }
